@@ -321,3 +321,60 @@ pub fn enc_result(r: &Result<Value, reval::Error>) -> String {
         Err(e) => enc_err(e),
     }
 }
+
+/// the same tree built through the crate's public constructors (`Expr::mult`, `Expr::iif`, …) instead of the enum
+/// variants: a constructor that rewrites what it is given shows as a different evaluation result
+pub fn via_ctor(e: &Expr) -> Expr {
+    let c = |x: &Expr| via_ctor(x);
+    match e {
+        Expr::Value(v) => Expr::value(v.clone()),
+        Expr::Reference(n) => Expr::reff(n),
+        Expr::Symbol(n) => Expr::symbol(n),
+        Expr::Function(f, a) => Expr::func(f.clone(), c(a)),
+        Expr::Index(b, i) => Expr::index(c(b), i.clone()),
+        Expr::If(x, t, f) => Expr::iif(c(x), c(t), c(f)),
+        Expr::Map(m) => Expr::Map(m.iter().map(|(k, x)| (k.clone(), c(x))).collect()),
+        Expr::Vec(v) => Expr::Vec(v.iter().map(c).collect()),
+        Expr::Not(x) => Expr::not(c(x)),
+        Expr::Neg(x) => Expr::neg(c(x)),
+        Expr::Some(x) => Expr::some(c(x)),
+        Expr::None(x) => Expr::none(c(x)),
+        Expr::Int(x) => Expr::int(c(x)),
+        Expr::Float(x) => Expr::float(c(x)),
+        Expr::Dec(x) => Expr::dec(c(x)),
+        Expr::DateTime(x) => Expr::datetime(c(x)),
+        Expr::Duration(x) => Expr::duration(c(x)),
+        Expr::Mult(l, r) => Expr::mult(c(l), c(r)),
+        Expr::Div(l, r) => Expr::div(c(l), c(r)),
+        Expr::Rem(l, r) => Expr::rem(c(l), c(r)),
+        Expr::Add(l, r) => Expr::add(c(l), c(r)),
+        Expr::Sub(l, r) => Expr::sub(c(l), c(r)),
+        Expr::Equals(l, r) => Expr::eq(c(l), c(r)),
+        Expr::NotEquals(l, r) => Expr::neq(c(l), c(r)),
+        Expr::GreaterThan(l, r) => Expr::gt(c(l), c(r)),
+        Expr::GreaterThanEquals(l, r) => Expr::gte(c(l), c(r)),
+        Expr::LessThan(l, r) => Expr::lt(c(l), c(r)),
+        Expr::LessThanEquals(l, r) => Expr::lte(c(l), c(r)),
+        Expr::And(l, r) => Expr::and(c(l), c(r)),
+        Expr::Or(l, r) => Expr::or(c(l), c(r)),
+        Expr::BitAnd(l, r) => Expr::bitwise_and(c(l), c(r)),
+        Expr::BitOr(l, r) => Expr::bitwise_or(c(l), c(r)),
+        Expr::BitXor(l, r) => Expr::bitwise_xor(c(l), c(r)),
+        Expr::Contains(l, r) => Expr::contains(c(l), c(r)),
+        Expr::UpperCase(x) => Expr::uppercase(c(x)),
+        Expr::LowerCase(x) => Expr::lowercase(c(x)),
+        Expr::Trim(x) => Expr::trim(c(x)),
+        Expr::Floor(x) => Expr::floor(c(x)),
+        Expr::Round(x) => Expr::round(c(x)),
+        Expr::Fract(x) => Expr::fract(c(x)),
+        Expr::Year(x) => Expr::year(c(x)),
+        Expr::Month(x) => Expr::month(c(x)),
+        Expr::Week(x) => Expr::week(c(x)),
+        Expr::Day(x) => Expr::day(c(x)),
+        Expr::Hour(x) => Expr::hour(c(x)),
+        Expr::Minute(x) => Expr::minute(c(x)),
+        Expr::Second(x) => Expr::second(c(x)),
+        #[allow(unreachable_patterns)]
+        other => other.clone(),
+    }
+}
